@@ -1340,6 +1340,27 @@ def slice_map_sum(c):
     v = c.args[0]
     if isinstance(v, Iter) and len(v.maps) == 1 and v.kind == "iter":
         f = c.deref(v.maps[0])
+        # a function whose result is the same constant k for every element: the sum is exactly k * (number of elements)
+        fk = f.key if isinstance(f, FnV) else (f.tag if isinstance(f, Struct) else None)
+        fb = c.it.prog.bodies.get(fk) if fk else None
+        if fb is not None and fb.arg_count in (1, 2):
+            st_try = c.st.copy()
+            ai = fb.arg_count        # the element is the last parameter (after a closure's environment)
+            try:
+                arg = c.it.top_of(st_try, fb, fb.locals[ai]["ty"], hint="elem", region_prefix="%s/%d.%d:sumelem" % (c.fr.id, c.bb, c.part))
+                saved = dict(c.it.obligations)
+                c2 = c.st
+                c.st = st_try
+                res = c.call_closure(st_try, v.maps[0], [arg], "sm")
+                c.st = c2
+                c.it.obligations = saved       # obligations of this trial evaluation are the per-element analysis' business
+            except Exception:
+                res = None
+            if res:
+                ks = {s2.sys.const_value(r.e) if isinstance(r, Num) else None for s2, r in res}
+                if len(ks) == 1 and None not in ks:
+                    k = int(next(iter(ks)))
+                    return [(c.st, Num(v.len.scale(k)))]
         tag = f.tag if isinstance(f, Struct) else None
         body = c.it.prog.bodies.get(tag) if tag else None
         what = None
@@ -1394,6 +1415,47 @@ def vec_map_collect(c):
         out = []
         for st_, item in states:
             out.append((st_, Seq(v.len, None, item)))
+        return out
+    for a in c.args:
+        c.escape(a)
+    return [(c.st, c.top_ret())]
+
+
+@model(r"^<std::iter::Map<std::(vec::IntoIter|slice::(Iter|IterMut|ChunksExact|Chunks))<.*>, .*> as std::iter::Iterator>::collect::<std::result::Result<std::vec::Vec<")
+def vec_map_collect_result(c):
+    """`iter.map(f).collect::<Result<Vec<_>, E>>()`: f is run once on the summary element, in context; the first Err is the result,
+    otherwise Ok(vector of the Ok payloads, one per element)"""
+    v = c.args[0]
+    if isinstance(v, Iter) and v.items is not None:
+        if isinstance(v.items, Empty):
+            return [(c.st, Enum(RESULT, {0: Struct({0: Seq(v.len, None, EMPTY)})}))]
+        st0 = c.st.copy()
+        states = [(c.st, v.items)]
+        for i, f in enumerate(v.maps):
+            nxt = []
+            for st_, item in states:
+                res = c.call_closure(st_, f, [item], "mr%d" % i)
+                if res is None:
+                    c.escape(f)
+                    return [(c.st, c.top_ret())]
+                nxt.extend(res)
+            states = nxt
+        out = []
+        oks = None
+        n_ok = 0
+        for st_, item in states:
+            if not isinstance(item, Enum):
+                return [(st0, c.top_ret())]
+            if 1 in item.v:
+                s_err = st_.copy() if 0 in item.v else st_
+                s_err.sys.add_ge(v.len - 1)          # an element was there to fail on
+                out.append((s_err, Enum(RESULT, {1: item.v[1]})))
+            if 0 in item.v:
+                n_ok += 1
+                pay = item.v[0].get(0)
+                oks = pay if oks is None else weak_join(oks, pay)
+        if n_ok:
+            out.append((st0, Enum(RESULT, {0: Struct({0: Seq(v.len, None, oks)})})))
         return out
     for a in c.args:
         c.escape(a)
